@@ -1,6 +1,8 @@
 import HydroVerif.Proto
 import HydroVerif.Model.C07
 import HydroVerif.Model.C07Kernel
+import HydroVerif.Model.C07Round
+import HydroVerif.Model.C07State
 open HydroVerif HydroVerif.C07
 
 /-
@@ -16,6 +18,14 @@ requests (floats as 16 hex digits, rationals as p/q):
   xy2cQ nrows ncols xll yll csz [x,y;...]       -> [cells]   exact rationals
   c2cQ nrows ncols xll yll csz [cells]          -> [x,y;...] exact rationals (none for invalid)
   axes nrows ncols xll yll csz                  -> [xvalues] [yvalues] [xlim0,xlim1,ylim0,ylim1]
+  xy2cR nrows ncols xll yll csz [x,y;...]       -> [cells]   exact rationals, every arithmetic result rounded by round53
+  xy2cRid nrows ncols xll yll csz [x,y;...]     -> [cells]   Float, coord2cellR with the identity (= the kernel)
+  c2cR nrows ncols xll yll csz [cells]          -> [x,y;...] exact rationals with round53 (none for invalid)
+  round53 [rationals]                           -> [rationals]
+  mk ncols nrows|- csz|- xll|- yll|-            -> ok nrows ncols xll yll csz | err:ValueError     (Grid.__init__)
+  shape rc|cc|xy nrows ncols xll yll csz [shape] [flat data]  -> answer as rowcol / c2c / xy2c | err:ValueError
+  hist nrows ncols xll yll csz op op ...        -> answers joined by '|', then 'G' + the final attributes; ops: sr:n sc:n sx:f sy:f sz:f cl rc:[..] cc:[..]
+                                                   xy:[x,y;..] nb:n ax  (answer of a mutator / clone: '-')
 -/
 
 def fmtPairs (rows : List (String × String)) : String :=
@@ -39,8 +49,108 @@ def pairs? {β} (f : String → Option β) (s : String) : Option (List (β × β
       | _, _ => none
     | _ => none)
 
+def fmtCoordsF (rows : List (Option (Float × Float))) : String :=
+  fmtPairs (rows.map fun r =>
+    match r with
+    | some (x, y) => (hexOfFloat x, hexOfFloat y)
+    | none => ("nan", "nan"))
+
+def fmtRowcol (rows : List (Int × Int)) : String := fmtPairs (rows.map fun rc => (toString rc.1, toString rc.2))
+
+def fmtNb (r : Except Err (List Int)) : String :=
+  match r with
+  | .ok l => "ok:" ++ fmtIntList l
+  | .error .badCell => "err:badCell"
+
+def fmtAxes (xv yv : List (Option Float)) (xl yl : Float × Float) : String :=
+  fmtList (xv.map fmtOptFloat) ++ " " ++ fmtList (yv.map fmtOptFloat) ++ " " ++ fmtFloatList [xl.1, xl.2, yl.1, yl.2]
+
+def fmtAns : Ans Float → String
+  | .unit => "-"
+  | .rowcol l => fmtRowcol l
+  | .coords l => fmtCoordsF l
+  | .cells l => fmtIntList l
+  | .nb r => fmtNb r
+  | .axes xv yv xl yl => fmtAxes xv yv xl yl
+
+/-- one operation token of a `hist` request -/
+def opTok? (t : String) : Option (Op Float) :=
+  match t.splitOn ":" with
+  | ["cl"] => some .clone
+  | ["ax"] => some .axes
+  | ["sr", v] => v.toInt?.map .setNrows
+  | ["sc", v] => v.toInt?.map .setNcols
+  | ["sx", v] => (floatTok? v).map .setXll
+  | ["sy", v] => (floatTok? v).map .setYll
+  | ["sz", v] => (floatTok? v).map .setCsz
+  | ["rc", l] => (parseIntList? l).map .rowcol
+  | ["cc", l] => (parseIntList? l).map .c2c
+  | ["xy", l] => (pairs? floatTok? l).map .xy2c
+  | ["nb", v] => v.toInt?.map .nb
+  | _ => none
+
+def optTok? {β} (f : String → Option β) (t : String) : Option (Option β) :=
+  if t = "-" then some none else (f t).map some
+
 def handle (toks : List String) : String :=
   match toks with
+  | "hist" :: nr :: nc :: xll :: yll :: csz :: ops =>
+    match geomF? nr nc xll yll csz, allSome (ops.map opTok?) with
+    | some g, some ops =>
+      let f := finalGeom g ops
+      "|".intercalate ((run g ops).map fmtAns ++ [s!"G {f.nrows} {f.ncols} {hexOfFloat f.xll} {hexOfFloat f.yll} {hexOfFloat f.csz}"])
+    | _, _ => "bad-op"
+  | ["mk", nc, nr, csz, xll, yll] =>
+    match nc.toInt?, optTok? String.toInt? nr, optTok? floatTok? csz, optTok? floatTok? xll, optTok? floatTok? yll with
+    | some nc, some nr, some csz, some xll, some yll =>
+      match mkGrid nc nr csz xll yll with
+      | .ok g => s!"ok {g.nrows} {g.ncols} {hexOfFloat g.xll} {hexOfFloat g.yll} {hexOfFloat g.csz}"
+      | .error .valueError => "err:ValueError"
+    | _, _, _, _, _ => "bad-op"
+  | ["shape", fn, nr, nc, xll, yll, csz, shape, data] =>
+    match geomF? nr nc xll yll csz, parseNatList? shape with
+    | some g, some sh =>
+      if fn = "xy" then
+        match parseFloatList? data with
+        | some d =>
+          match gridCoord2cellReq g sh d with
+          | .ok l => fmtIntList l
+          | .error .valueError => "err:ValueError"
+        | none => "bad-op"
+      else
+        match parseIntList? data with
+        | some d =>
+          if fn = "rc" then
+            match gridCell2rowcolReq g.nrows g.ncols sh d with
+            | .ok l => fmtRowcol l
+            | .error .valueError => "err:ValueError"
+          else
+            match gridCell2coordReq g sh d with
+            | .ok l => fmtCoordsF l
+            | .error .valueError => "err:ValueError"
+        | none => "bad-op"
+    | _, _ => "bad-op"
+  | ["xy2cR", nr, nc, xll, yll, csz, pts] =>
+    match geomQ? nr nc xll yll csz, pairs? ratTok? pts with
+    | some g, some ps =>
+      if g.csz = 0 then "err:csz0" else fmtIntList (ps.map fun p => coord2cellR round53 g p.1 p.2)
+    | _, _ => "bad-op"
+  | ["xy2cRid", nr, nc, xll, yll, csz, pts] =>
+    match geomF? nr nc xll yll csz, pairs? floatTok? pts with
+    | some g, some ps => fmtIntList (ps.map fun p => coord2cellR (fun t => t) g p.1 p.2)
+    | _, _ => "bad-op"
+  | ["c2cR", nr, nc, xll, yll, csz, cells] =>
+    match geomQ? nr nc xll yll csz, parseIntList? cells with
+    | some g, some cs =>
+      fmtPairs (cs.map fun c =>
+        match cell2coordR round53 g c with
+        | some (x, y) => (fmtRat x, fmtRat y)
+        | none => ("none", "none"))
+    | _, _ => "bad-op"
+  | ["round53", xs] =>
+    match parseRatList? xs with
+    | some l => fmtRatList (l.map round53)
+    | none => "bad-op"
   | ["rowcol", nr, nc, cells] =>
     match nr.toInt?, nc.toInt?, parseIntList? cells with
     | some nr, some nc, some cs =>
